@@ -222,6 +222,15 @@ NEEDS = {
              'batch of >= 2 moves with an accepted move whose slot is reused later in the batch'),
     'C36c': ('PairState.__sub__ fast path for a - a returns the zero state on the final site',
              'difference of two equal pair states with i != j'),
+    # fourth wave (continued session; only the property text was given, time-boxed)
+    'C21d': ('jumpnetwork: per-species closestdistance list drops the jumping species slot (indices of later species shift down by one)',
+             'closestdistance given as a list and the jumping species not the last chemistry index'),
+    'C23d': ('GroupOp.inv(): inverse translation computed as -(trans . R^-1) instead of -(R^-1 . trans)',
+             'non-symmorphic operation whose lattice-coordinate inverse rotation is not symmetric (diamond on the primitive fcc cell)'),
+    'C27d': ('Supercell.equivalencemap step 4 compares only the vacant / occupied pattern, not the species',
+             'two cooperating defect types: vacancy pattern matches under an operation while a solute arrangement does not'),
+    'C28d': ('Supercell.setocc range check c > Nchem (same slip as seeded C28, found independently)',
+             'species index exactly Nchem on an occupied site, IndexError caught, supercell used afterwards'),
 }
 
 
